@@ -433,6 +433,9 @@ const c07maxRecv = 12
 
 // c07run executes the case and evaluates the property on what Recv did.
 // It returns the observations (one per Recv call made) and the oracle failures (sig, desc).
+// growthMeasured counts the Recv calls whose buffer growth could be measured (announcement >= 64 KiB): [not grown, grown].
+var growthMeasured [2]int
+
 func c07run(cs *c07case, src c07src) (obs []c07obs, fails [][2]string) {
 	st := ttlv.NewStream(src, cs.Max)
 	faithful := c07faithful(cs.Sched) && cs.Std != "timeout"
@@ -481,11 +484,12 @@ func c07run(cs *c07case, src c07src) (obs []c07obs, fails [][2]string) {
 		// measured growth of the receive buffer, for the correspondence
 		if o.class != 0 && o.class != 5 && consumed >= 8 && pos+8 <= len(cs.data) {
 			ann := 8 + c07padded(int(binary.BigEndian.Uint32(cs.data[pos+4:pos+8])))
-			if ann >= 4096 {
+			if ann >= 65536 { // far above any fixed initial buffer: the allocation tells whether the buffer was grown to the announced size
 				o.grew = 0
 				if o.alloc >= uint64(ann) {
 					o.grew = 1
 				}
+				growthMeasured[o.grew]++
 			}
 		}
 		obs = append(obs, o)
@@ -1294,6 +1298,7 @@ func driveC07(c *h.Ctx) error {
 	var w32cases []c07w32case
 	if c.Replay == nil {
 		c07Concurrent(c)
+		c10LargeResponse(c, "C07")
 	}
 	if c.Replay != nil {
 		m, _ := c.Replay["case"].(map[string]any)
@@ -1304,6 +1309,10 @@ func driveC07(c *h.Ctx) error {
 			for i := 0; i < 5; i++ {
 				c07Concurrent(c)
 			}
+			return c.WriteCases("cases_C07.v", "", 0)
+		}
+		if m["leg"] == "large-response" {
+			c10LargeResponse(c, "C07")
 			return c.WriteCases("cases_C07.v", "", 0)
 		}
 		if w, _ := m["w32"].(bool); w {
@@ -1586,6 +1595,7 @@ Definition row_ok (W : Z) (r : row) : bool :=
 	}
 	fmt.Fprintf(&sb, "Definition mism_count := Eval vm_compute in (if %s =? %d then [] else [0]).\nPrint mism_count.\n", strings.Join(lens, " + "), len(rows)+len(rows32))
 	c.Extra("model_rows_written", len(rows)+len(rows32))
+	c.Extra("buffer_growth_measured_not_grown_and_grown", growthMeasured)
 	return c.WriteCases("cases_C07.v", sb.String(), len(rows)+len(rows32))
 }
 
